@@ -882,6 +882,7 @@ func c08Rules(c *Ctx) {
 	ruleArrayLengthFolded(c, "B4-array-length-folded")
 	ruleElementSteps(c, "D5-element-steps", c08Files)
 	ruleConstantNilValue(c, "N7-constant-nil-value", c08Files)
+	ruleIndexAdmission(c, "I2-index-admission")
 }
 
 func init() {
@@ -901,6 +902,7 @@ func init() {
 			"B4 len and cap of a pointer to array never dereference it at run time: the compiler that dereferences the argument type folds the result to the array length (found F53: cap(p) for a nil *[3]int panicked); " +
 			"B4 also: after the argument is replaced by its dereference the remembered type is read again; D5 a place compiler whose result type descends k Elem() steps from the operand type descends k steps (Elem, Index, MapIndex) from the operand value in every run-time closure (p[i] with p a pointer to array: Elem then Index); " +
 			"N7 the Value of a constant (which may be nil, hence invalid) handed to reflect as an argument is tested with IsValid (found F56: m[nil] crashed); " +
+			"I2 every compiler of an indexed operand admits the index by its integer category, not by assignability to int (found F59: a[u] = 5 with u uint8 was rejected while a[u] was accepted); " +
 			"M1 a missing map key: the Value returned by reflect's MapIndex is never used through an accessor without an IsValid test, in any function of package fast (found F40: `m[k] /= 4` and `m[k] <<= 2` on a missing key panicked); " +
 			"The oracle for bounds and nil panics is reflect's own checks (trusted to equal Go's), reached because element access goes through the reflect primitive with the right operands. " +
 			"Not decided: aliasing and append growth, value semantics of arrays, composite literal construction, struct field selection, which panics reflect raises.",
@@ -920,6 +922,7 @@ func init() {
 			{Name: "makeslice-len-above-cap-accepted", File: "xreflect/wrap.go", Old: "\tif len > cap {\n\t\t// the slice is allocated below with length == capacity: check what reflect.MakeSlice would\n\t\tpanic(\"reflect.MakeSlice: len > cap\")\n\t}\n", New: ""},
 			{Name: "ptr-place-address-skips-deref", File: "fast/index.go", Old: "\t\t\tobjv := objfun(env).Elem()\n\t\t\ti := idxfun(env)\n\t\t\treturn objv.Index(i).Addr()", New: "\t\t\tobjv := objfun(env)\n\t\t\ti := idxfun(env)\n\t\t\treturn objv.Index(i).Addr()"},
 			{Name: "len-of-array-pointer-keeps-pointer-type", File: "fast/builtin.go", Old: "\t\t\t// len() on pointer to array\n\t\t\targ = c.Deref(arg)\n\t\t\ttin = arg.Type\n", New: "\t\t\t// len() on pointer to array\n\t\t\targ = c.Deref(arg)\n"},
+			{Name: "place-index-admitted-by-assignability", File: "fast/index.go", Old: "} else if idx.Type == nil || !reflect.IsCategory(idx.Type.Kind(), r.Int, r.Uint) {", New: "} else if idx.Type == nil || !idx.Type.AssignableTo(c.TypeOfInt()) {", Nth: 1},
 			{Name: "nil-key-constant-reaches-mapindex", File: "fast/index.go", Old: "\t\tkey := xr.ValueOf(idx.Value)\n\t\tif !key.IsValid() {\n\t\t\t// the constant nil: it was converted to tkey above\n\t\t\tkey = xr.Zero(tkey)\n\t\t}\n", New: "\t\tkey := xr.ValueOf(idx.Value)\n", Nth: 2},
 			{Name: "cap-of-array-pointer-dereferences", File: "fast/builtin.go", Old: "\tisarray := tin.Kind() == r.Array\n\tif isarray {\n\t\tn := tin.Len()\n\t\tfun.Value = func(_ xr.Value) int {\n\t\t\treturn n\n\t\t}\n\t\targ = exprLit(Lit{Type: tin, Value: xr.Zero(tin).Interface()}, nil)\n\t}\n\treturn newCall1(fun, arg, isarray || arg.Const(), tout)\n}\n\n// --- close() ---", New: "\treturn newCall1(fun, arg, arg.Const(), tout)\n}\n\n// --- close() ---"},
 			{Name: "delete-args-swapped", File: "fast/builtin.go", Old: "Args: []*Expr{emap, ekey}", New: "Args: []*Expr{ekey, emap}"},
